@@ -1268,7 +1268,7 @@ def parse_coq_out(out):
     return res
 
 
-def eval_shards(items, nshards=5, timeout=600):
+def eval_shards(items, nshards=6, timeout=900):
     """split the items over several coqc processes"""
     shards = [items[i::nshards] for i in range(nshards)]
     shards = [s for s in shards if s]
@@ -1305,9 +1305,10 @@ def corpus_cases():
 
 
 def gen():
-    import c18_bits, c18_tidy
+    import c18_bits, c18_tidy, c18_setup
     c18_bits.generate()
     c18_tidy.generate()
+    c18_setup.generate()
 
 
 _seen_keys = set()
